@@ -195,3 +195,51 @@ func vC20NativeConc(n int) {
 
 func vhC20_nativeconc_n2() { vC20NativeConc(2) }
 func vhC20_nativeconc_n3() { vC20NativeConc(3) }
+
+// C20 (two overlapping subscriptions of one limited observable): every subscription limits its own
+// stream; what one subscriber receives, and how much quota it has left, does not depend on another
+// subscriber of the same observable being alive.  No window tick fires (the clock stands still).
+func vC20Overlap(n int) {
+	quota := int64(1 + vChoice("quota", 2))
+	src := &vSource{}
+	obs := NewRateLimiter[int64](quota, time.Duration(time.Hour), vKeyOf)(src.obs())
+	ra, rb := &vRecorder{name: "a"}, &vRecorder{name: "b"}
+	obs.SubscribeWithContext(context.Background(), vObs(ra, vFlatInt))
+	vQuiesce()
+	obs.SubscribeWithContext(context.Background(), vObs(rb, vFlatInt))
+	vQuiesce()
+	vAssert(src.subs == 2, "native limiter: two subscriptions did not subscribe the source twice")
+	var wantA, wantB []vEv
+	cntA, cntB := map[string]int64{}, map[string]int64{}
+	for i := 0; i < n; i++ {
+		v := vInt64("v" + vItoa(i))
+		k := vKeyOf(v)
+		if vChoice("to"+vItoa(i), 2) == 0 {
+			vEmit(src.dests[0], src.ctxs[0], vStep{vkNext, v})
+			cntA[k]++
+			if cntA[k] <= quota {
+				wantA = append(wantA, vEv{kind: vkNext, vals: []int64{v}})
+			}
+		} else {
+			vEmit(src.dests[1], src.ctxs[1], vStep{vkNext, v})
+			cntB[k]++
+			if cntB[k] <= quota {
+				wantB = append(wantB, vEv{kind: vkNext, vals: []int64{v}})
+			}
+		}
+		vQuiesce()
+	}
+	vEmit(src.dests[0], src.ctxs[0], vStep{kind: vkComplete})
+	vQuiesce()
+	wantA = append(wantA, vEv{kind: vkComplete})
+	vSameEvents("native limiter (first of two overlapping subscriptions)", ra.evs, wantA)
+	vSameEvents("native limiter (second of two overlapping subscriptions, the first has completed)", rb.evs, wantB)
+	vEmit(src.dests[1], src.ctxs[1], vStep{kind: vkComplete})
+	vQuiesce()
+	wantB = append(wantB, vEv{kind: vkComplete})
+	vSameEvents("native limiter (second of two overlapping subscriptions)", rb.evs, wantB)
+	vReach("end")
+}
+
+func vhC20_overlap_n2() { vC20Overlap(2) }
+func vhC20_overlap_n3() { vC20Overlap(3) }
